@@ -809,3 +809,133 @@ pub fn mfhd(p: &[u8], dev: &mut Vec<String>) {
 pub fn fixed16(v: u32) -> (u32, bool) {
     (v >> 16, v & 0xffff == 0)
 }
+
+#[cfg(test)]
+mod tests {
+    use super::*;
+
+    fn be(v: u32) -> [u8; 4] {
+        v.to_be_bytes()
+    }
+
+    #[test]
+    fn tkhd_v0_and_v1_spec_layouts() {
+        let mut p = Vec::new();
+        p.extend_from_slice(&be(0x0000_0007)); // v0, enabled|in_movie|in_preview
+        p.extend_from_slice(&[0; 8]); // creation, modification
+        p.extend_from_slice(&be(5)); // track id
+        p.extend_from_slice(&be(0)); // reserved
+        p.extend_from_slice(&be(1234)); // duration
+        p.extend_from_slice(&[0; 8]); // reserved
+        p.extend_from_slice(&[0, 0, 0, 0, 1, 0, 0, 0]); // layer, alt group, volume 1.0, reserved
+        for m in UNITY {
+            p.extend_from_slice(&be(m));
+        }
+        p.extend_from_slice(&be(640 << 16));
+        p.extend_from_slice(&be(480 << 16));
+        assert_eq!(p.len(), 84);
+        let mut dev = Vec::new();
+        let t = tkhd(&p, &mut dev).unwrap();
+        assert!(dev.is_empty(), "{:?}", dev);
+        assert_eq!((t.track_id, t.duration, t.volume, t.width >> 16, t.height >> 16), (5, 1234, 0x0100, 640, 480));
+        assert_eq!(t.matrix, UNITY);
+        // 4 bytes too long (the muxide layout): rejected with a size deviation, no field is trusted
+        let mut bad = p.clone();
+        bad.splice(20..20, [0u8; 4]);
+        let mut dev = Vec::new();
+        assert!(tkhd(&bad, &mut dev).is_none());
+        assert!(dev.iter().any(|d| d.contains("payload size 88 not 84")));
+        // version 1
+        let mut q = Vec::new();
+        q.extend_from_slice(&be(0x0100_0001));
+        q.extend_from_slice(&[0; 16]);
+        q.extend_from_slice(&be(9));
+        q.extend_from_slice(&be(0));
+        q.extend_from_slice(&(1u64 << 40).to_be_bytes());
+        q.extend_from_slice(&[0; 16]);
+        for m in UNITY {
+            q.extend_from_slice(&be(m));
+        }
+        q.extend_from_slice(&be(16 << 16));
+        q.extend_from_slice(&be(16 << 16));
+        assert_eq!(q.len(), 96);
+        let mut dev = Vec::new();
+        let t = tkhd(&q, &mut dev).unwrap();
+        assert!(dev.is_empty(), "{:?}", dev);
+        assert_eq!((t.track_id, t.duration), (9, 1 << 40));
+    }
+
+    #[test]
+    fn mdhd_v1_and_language() {
+        let mut p = Vec::new();
+        p.extend_from_slice(&be(0x0100_0000));
+        p.extend_from_slice(&[0; 16]);
+        p.extend_from_slice(&be(90_000));
+        p.extend_from_slice(&(5_000_000_000u64).to_be_bytes());
+        // "fra" = (6,18,1)
+        let lang: u16 = (6 << 10) | (18 << 5) | 1;
+        p.extend_from_slice(&lang.to_be_bytes());
+        p.extend_from_slice(&[0, 0]);
+        assert_eq!(p.len(), 36);
+        let mut dev = Vec::new();
+        let m = mdhd(&p, &mut dev).unwrap();
+        assert!(dev.is_empty(), "{:?}", dev);
+        assert_eq!((m.version, m.timescale, m.duration), (1, 90_000, 5_000_000_000));
+        // 32-bit times under version 1 (a known wrong layout) is a deviation
+        let mut dev = Vec::new();
+        assert!(mdhd(&p[..28], &mut dev).is_none());
+        assert!(!dev.is_empty());
+    }
+
+    #[test]
+    fn esds_with_long_form_lengths() {
+        // descriptors with 4-byte (0x80-prefixed) expandable lengths, as many muxers write them
+        let asc = [0x12u8, 0x10]; // AOT 2, sfi 4, channels 2
+        let mut dsi = vec![0x05, 0x80, 0x80, 0x80, 2];
+        dsi.extend_from_slice(&asc);
+        let mut dcd = vec![0x04, 0x80, 0x80, 0x80, (13 + dsi.len()) as u8, 0x40, 0x15, 0, 0, 0, 0, 0, 0, 0, 0, 0, 0, 0];
+        dcd.extend_from_slice(&dsi);
+        let sl = [0x06u8, 0x80, 0x80, 0x80, 1, 2];
+        let mut es = vec![0x03, 0x80, 0x80, 0x80, (3 + dcd.len() + sl.len()) as u8, 0, 1, 0];
+        es.extend_from_slice(&dcd);
+        es.extend_from_slice(&sl);
+        let mut p = vec![0, 0, 0, 0];
+        p.extend_from_slice(&es);
+        let mut dev = Vec::new();
+        let e = esds(&p, &mut dev).unwrap();
+        assert!(dev.is_empty(), "{:?}", dev);
+        assert_eq!((e.aot, e.sfi, e.channel_cfg), (2, 4, 2));
+    }
+
+    #[test]
+    fn vpcc_av1c_hvcc_layouts() {
+        let mut dev = Vec::new();
+        let v = vpcc(&[1, 0, 0, 0, 2, 31, 0xa3, 9, 16, 9, 0, 0], &mut dev).unwrap();
+        assert!(dev.is_empty());
+        assert_eq!((v.layout, v.profile, v.level, v.bit_depth, v.chroma_subsampling, v.full_range), ("spec", 2, 31, 10, 1, 1));
+        let mut dev = Vec::new();
+        assert_eq!(vpcc(&[1, 0, 0, 8, 0, 0, 0, 0], &mut dev).unwrap().layout, "flat8");
+        assert!(!dev.is_empty());
+        let mut dev = Vec::new();
+        let a = av1c(&[0x81, (2 << 5) | 13, 0x80 | 0x40 | 0x08, 0x00, 0x0a, 0x01, 0x00], &mut dev).unwrap();
+        assert!(dev.is_empty());
+        assert_eq!((a.seq_profile, a.seq_level_idx_0, a.seq_tier_0, a.high_bitdepth, a.sub_x, a.sub_y), (2, 13, 1, true, true, false));
+        assert_eq!(a.config_obus, vec![0x0a, 0x01, 0x00]);
+        let mut dev = Vec::new();
+        av1c(&[0x01, 0, 0], &mut dev);
+        assert!(!dev.is_empty());
+        // hvcC with all reserved bits set and two arrays
+        let mut h = vec![1, 0x21, 0x60, 0, 0, 0, 0x90, 0, 0, 0, 0, 0, 93, 0xf0, 0, 0xfc, 0xfd, 0xf8, 0xf8, 0, 0, 0x0f, 2];
+        h.extend_from_slice(&[0x80 | 33, 0, 1, 0, 3, 0x42, 1, 1]);
+        h.extend_from_slice(&[0x80 | 34, 0, 1, 0, 2, 0x44, 1]);
+        let mut dev = Vec::new();
+        let c = hvcc(&h, &mut dev).unwrap();
+        assert!(dev.is_empty(), "{:?}", dev);
+        assert_eq!((c.profile_idc, c.tier, c.level_idc, c.length_size, c.arrays.len()), (1, true, 93, 4, 2));
+        let mut zero = h.clone();
+        zero[15] = 0;
+        let mut dev = Vec::new();
+        hvcc(&zero, &mut dev);
+        assert!(dev.iter().any(|d| d.contains("parallelismType")));
+    }
+}
